@@ -22,7 +22,15 @@ impl StateMachine<'_> {
             // Print the "Binary files" line verbatim, if there was no "diff" line, or it
             // listed different files but was not followed by header minus and plus lines.
             // This can happen in output of standalone diff or git diff --no-index.
-            if self.minus_file.is_empty() && self.plus_file.is_empty() {
+            // Likewise if there was no "diff" line for this file at all (`diff -r`: the stored
+            // names are those of the previous file), and if the header of this file has been
+            // written already (a renamed or copied file): the line is what says "binary".
+            if (self.minus_file.is_empty() && self.plus_file.is_empty())
+                || !matches!(self.state, State::DiffHeader(_))
+                || (self.current_file_pair.is_some()
+                    && self.handled_diff_header_header_line_file_pair == self.current_file_pair)
+            {
+                self.painter.paint_buffered_minus_and_plus_lines();
                 self.emit_line_unchanged()?;
                 self.handled_diff_header_header_line_file_pair
                     .clone_from(&self.current_file_pair);
